@@ -1,5 +1,6 @@
 """C20 - statistics histories stay bounded, aligned and sane (E2, product BFS to the fixpoint)."""
 import math
+import os
 
 from .. import world as _w   # virtual clock
 from ..report import Outcome, tier
@@ -463,7 +464,7 @@ def main():
         plan.append(HostSpec((5.0,), 10))
         plan.append(ProcSpec((5.0,), 10))
     plan.append(CollectorSpec(5.0))
-    cap_s = 110 if t == 'quick' else 1500
+    cap_s = int(os.environ.get('VERIF_CAP_S', '0')) or (110 if t == 'quick' else 600)
     results = run_specs(plan, lambda s: depth, lambda s: {'max_seconds': cap_s})
     cov = out.coverage
     cov.update({'evaluations': 0, 'distinct_nontrivial': 0, 'states': 0, 'transitions': 0, 'samples': [],
